@@ -67,7 +67,7 @@ func init() {
 			"per job every schedule of task thread(s) and the environment thread with <= 1 deviation (thorough: 2 on the single-integration jobs with index batch 1), free switches at step boundaries and between environment operations, environment switches otherwise only at RPC points; both partition orders when conc=2 and index batch 1. An execution is non-trivial when the code under test deleted at least one row or cursor (a reorg was unwound) or the oracle rejected it; distinct = distinct (job, choice sequence).",
 		Assumptions: []string{
 			"fake Postgres (h/simpg) interprets the SQL shovel sends; simulated node (h/simeth) answers like a well-behaved geth that switches chains atomically between two requests",
-			"phase 1 (index the n-block chain to its head with batch b0, real pipeline, sequential) runs once per job in a scratch world; its database is the start state of every execution, which begins with a process restart: fresh tasks and source client from the second config (batch b1 / conc), then one idle poll per task (nothing new yet) — plain indexing is C01's subject, a failure there is a harness error",
+			"phase 1 (index the n-block chain to its head with batch b0, real pipeline, sequential) runs once per job in a scratch world; its database is the start state of every execution, which begins with a process restart: fresh tasks and source client from the second config (batch b1 / conc), then one idle poll per task (nothing new yet) — if the real pipeline fails phase 1 (plain indexing, C01/C04 territory) the job is reported as violation class 'setup' (key index-phase-failed:<set>), not explored",
 			"'the source settles' = the environment thread has applied its last chain change; afterwards each task is stepped until it reports 'no new blocks' (number of integrations + 1) times in a row (the head cache may serve that many stale answers), horizon 4n+8 steps",
 			"while the source has not changed since its last poll a task does not poll again (it would repeat the same step)",
 			"reductions with several tasks on one client: the schedule space is explored while the source changes (afterwards the tasks are drained one after the other); only the first task's step boundaries are free switch points; preemptive switches to a task happen at RPC exchanges / step boundaries only; at most two environment operations",
@@ -215,7 +215,7 @@ func c03Jobs(thorough bool) []c03Job {
 	}
 	add(c03Job{Igs: "L1", N: 4, B0: 2, B1: 2, Conc: 2, Pre: 1, D: 1, R: 2, Var: "same", Post: 1})
 	// E: two integrations with different plans on one source client (at most two environment operations)
-	for i, x := range [][6]int{{1, 1, 1, 2, 1, 0}, {1, 2, 1, 2, 0, 1}, {1, 1, 2, 3, 1, 0}, {1, 2, 2, 1, 0, 1}, {2, 1, 1, 2, 1, 0}, {3, 2, 2, 3, 0, 1}} {
+	for i, x := range [][6]int{{1, 1, 1, 2, 1, 0}, {1, 2, 1, 2, 0, 1}, {1, 1, 2, 3, 1, 0}, {1, 2, 2, 1, 0, 1}, {2, 1, 1, 2, 1, 0}, {3, 2, 2, 3, 1, 0}} {
 		add(c03Job{Igs: "L1+T1", N: 4, B0: x[0], B1: x[1], Conc: 1, Pre: x[4], D: x[2], R: x[3], Var: vars[i%4], Post: x[5]})
 	}
 	add(c03Job{Igs: "T1+R1", N: 4, B0: 1, B1: 1, Conc: 1, Pre: 1, D: 1, R: 2, Var: "same", Post: 0})
@@ -247,6 +247,13 @@ type c03Prep struct {
 	hist  []uint64 // cursor positions written at index time
 }
 
+// indexPhaseErr: the REAL pipeline failed to index the original chain (before any reorg). That is a finding about
+// the code under test (plain indexing, C01/C04 territory), not a harness problem: it is reported as a violation of
+// class "setup" because the premise of the property cannot even be established.
+type indexPhaseErr struct{ msg string }
+
+func (e *indexPhaseErr) Error() string { return e.msg }
+
 // c03Phase1 indexes the original chain to its head with batch b0 (sequentially, real pipeline) and
 // keeps the resulting database; every execution of the job starts from it with a process restart.
 func c03Phase1(j c03Job, p *c03Prep) error {
@@ -270,7 +277,7 @@ func c03Phase1(j c03Job, p *c03Prep) error {
 					break
 				}
 				if out != "ok" || s > 3*j.N {
-					perr = fmt.Errorf("phase 1: task %s step %d: %s %v", t.Key(), s, out, err)
+					perr = &indexPhaseErr{fmt.Sprintf("index phase: task %s step %d: %s %v", t.Key(), s, out, err)}
 					return
 				}
 			}
@@ -280,7 +287,7 @@ func c03Phase1(j c03Job, p *c03Prep) error {
 			got := world.RenderDump(w.PG.Dump(d.Table), cols)
 			want := world.RenderRows(d.Expect(p.orig, "src1", 7, 1, uint64(j.N), nil), cols)
 			if strings.Join(got, "\n") != strings.Join(want, "\n") {
-				perr = fmt.Errorf("phase 1: table %s != projection of the original chain\n%s", d.Table, world.DiffSorted(got, want))
+				perr = &indexPhaseErr{fmt.Sprintf("index phase: after indexing the original chain to its head (no reorg yet) table %s != projection\n%s", d.Table, world.DiffSorted(got, want))}
 				return
 			}
 		}
@@ -839,6 +846,12 @@ func c03Run(c *fw.Ctx) {
 			return
 		}
 		p, err := c03Prepare(j)
+		if ipe, ok := err.(*indexPhaseErr); ok {
+			c.Eval(true)
+			c.Outcome("VIOLATION:index-phase")
+			c.Violation("C03", "setup", "index-phase-failed:"+j.Igs, fmt.Sprintf("job %s\n%s", c03JobString(j), ipe.msg), c03Case{Job: j})
+			continue
+		}
 		if err != nil {
 			c.HarnessError("prepare %+v: %v", j, err)
 			return
@@ -923,6 +936,11 @@ func c03Replay(c *fw.Ctx, raw json.RawMessage) {
 		return
 	}
 	p, err := c03Prepare(k.Job)
+	if ipe, ok := err.(*indexPhaseErr); ok {
+		c.Eval(true)
+		c.Violation("C03", "setup", "index-phase-failed:"+k.Job.Igs, fmt.Sprintf("job %s\n%s", c03JobString(k.Job), ipe.msg), k)
+		return
+	}
 	if err != nil {
 		c.HarnessError("prepare: %v", err)
 		return
